@@ -9,10 +9,10 @@ Theorems about `Model/DensityCache` (mirror of the caches `old_R`, `old_B`/`new_
 
 * matrix entries: `key_determines_entry`, `equal_keys_equal_entries`, `memo_transparent`, `matrix_reuse_transparent`,
   `matrices_equal_for_every_history` — reuse of matrix entries changes NOTHING, for every refinement history.
-* right-hand side: `copy_rule_sound` (a copied entry is the entry of the same basis function);
-  the recomputation of the remaining entries is NOT transparent in the unchanged code: `recompute_counterexample`,
-  `reuse_rhs_counterexample` (top-level `calculate_B_dimension_wise` on a 200-point grid), and what does hold:
-  `recompute_eq_sample_mean_partial`.
+* right-hand side: `copy_rule_sound` (a copied entry is the entry of the same basis function), `recompute_eq_sample_mean`
+  (every recomputed entry is the sample mean; code as of commit c6031a7 — before it the slice of `find_data_in_domain`
+  dropped the sample with the largest coordinate), `reuse_rhs_regression_witness` (the former counterexample on a
+  201-point grid: reuse on = reuse off).
 * small-grid vs large-grid implementations (threshold 200 points): `rhs_paths_agree_dimension_wise`,
   `rhs_paths_agree_uniform`, `interpolation_paths_agree` — equal on EVERY grid (the model functions have no size
   restriction, so "any grid on which both can be run" is every grid), `hat_paths_agree_all`.
@@ -86,33 +86,29 @@ theorem copy_rule_sound (stripes old : List (List ℚ)) (pt q : List ℚ)
 example : sameDomain (List.zipWith getHatDomain1 [[0, 1/4, 1/2, 3/4, 1]] [1/4]) (List.zipWith getHatDomain1 [[0, 1/4, 1/2, 1]] [1/4]) = true := by
   decide +kernel
 
-/-- the recomputation rule AS CODED is the sample mean only if every sample that `find_data_in_domain` leaves out lies
-    outside the support of the hat.  (Full statement, FALSE for the unchanged code: `bRecompute data sg sidx h = bSpec data sg h`
-    for every hat and data set — see `recompute_counterexample`.) -/
-theorem recompute_eq_sample_mean_partial (data : List (List ℚ)) (sg : List ℚ) (sidx : List (List ℕ)) (h : List Hat1)
-    (hlen : sg.length = data.length)
-    (hout : ∀ x ∈ List.range data.length, x ∉ findDataInDomain data sidx h → hatNS h (data.getD x []) * sg.getD x 0 = 0) :
-    bRecompute data sg sidx h = bSpec data sg h := bRecompute_eq_spec_partial data sg sidx h hlen hout
+/-- **every recomputed entry of the reuse branch is the sample mean** (`find_data_in_domain` + scalar hats): the slices
+    `sorted_data[d][max(lower-1,0) : min(upper+1, M)]` leave out only samples whose coordinate lies outside the support in
+    that dimension.  Any per-dimension index list containing every sample index will do (`np.argsort`; ties irrelevant). -/
+theorem recompute_eq_sample_mean (data : List (List ℚ)) (sg : List ℚ) (sidx : List (List ℕ)) (h : List Hat1)
+    (hlen : sg.length = data.length) (hdim : sidx.length = h.length) (hrow : ∀ x ∈ data, x.length = h.length)
+    (hperm : ∀ l ∈ sidx, ∀ x < data.length, x ∈ l) (hval : ∀ a ∈ h, a.lo < a.p ∧ a.p < a.hi) :
+    bRecompute data sg sidx h = bSpec data sg h := bRecompute_eq_spec data sg sidx h hlen hdim hrow hperm hval
 
-example : bRecompute [[1/4], [1]] [1, 1] [[0, 1]] [⟨1/2, 0, 1⟩] = bSpec [[1/4], [1]] [1, 1] [⟨1/2, 0, 1⟩] := by decide +kernel
-
-/-- **defect of the unchanged code** (`find_data_in_domain` uses `[max(lower-1,0), min(upper+1, M-1)]` as a slice): the
-    sample with the largest coordinate is never counted.  Two samples 1/4 and 1/2, hat centred at 1/2 on [0,1]:
-    recomputed entry 1/4, sample mean 3/4 -/
-theorem recompute_counterexample :
-    bRecompute [[1/4], [1/2]] [1, 1] [[0, 1]] [⟨1/2, 0, 1⟩] = 1/4 ∧ bSpec [[1/4], [1/2]] [1, 1] [⟨1/2, 0, 1⟩] = 3/4 := by
+/-- the witness of the defect fixed by c6031a7 (samples 1/4 and 1/2, hat centred at 1/2 on [0,1]; the old slice gave 1/4) -/
+example : bRecompute [[1/4], [1/2]] [1, 1] [[0, 1]] [⟨1/2, 0, 1⟩] = 3/4 ∧ bSpec [[1/4], [1/2]] [1, 1] [⟨1/2, 0, 1⟩] = 3/4 := by
   decide +kernel
 
-/-- witness grids for `reuse_rhs_counterexample`: 201 interior nodes `k/202`; the earlier grid lacks the node 1/202 -/
+/-- witness grids of the former counterexample: 201 interior nodes `k/202`; the earlier grid lacks the node 1/202 -/
 def cexNew : List Rat := (List.range 203).map fun (k : Nat) => (k : Rat) / 202
 def cexOld : List Rat := cexNew.filter fun c => c != 1/202
 def cexData : List (List Rat) := [[1/404], [3/404]]
 def cexOldEntry : BEntry := ⟨[8], [cexOld], calcBDW false [] [cexOld] cexData [1, 1] [[0, 1]]⟩
 
-/-- **the property is false of the unchanged code**: `calculate_B_dimension_wise` on a grid with 201 ≥ 200 points, after
-    an earlier evaluation of a coarser grid, returns a different right-hand side with `reuse_old_values` on than off -/
-theorem reuse_rhs_counterexample :
-    calcBDW true [cexOldEntry] [cexNew] cexData [1, 1] [[0, 1]] ≠ calcBDW false [cexOldEntry] [cexNew] cexData [1, 1] [[0, 1]] := by
+/-- regression witness at the top level (`calculate_B_dimension_wise`, 201 ≥ 200 points, after an earlier evaluation of a
+    coarser grid): with the fixed slice the reuse branch returns the right-hand side of the run without reuse
+    (before c6031a7 the two differed in the first entry, 1/4 vs 1/2) -/
+theorem reuse_rhs_regression_witness :
+    calcBDW true [cexOldEntry] [cexNew] cexData [1, 1] [[0, 1]] = calcBDW false [cexOldEntry] [cexNew] cexData [1, 1] [[0, 1]] := by
   decide +kernel
 
 /-- **right-hand side, dimension-wise grids**: the implementation for `N >= 200` (per sample only the neighbouring hats
